@@ -6,7 +6,10 @@ import (
 	abci "github.com/cometbft/cometbft/abci/types"
 	banktypes "github.com/cosmos/cosmos-sdk/x/bank/types"
 
+	erc20types "github.com/haqq-network/haqq/x/erc20/types"
 	evmtypes "github.com/haqq-network/haqq/x/evm/types"
+	lvtypes "github.com/haqq-network/haqq/x/liquidvesting/types"
+	ucdaotypes "github.com/haqq-network/haqq/x/ucdao/types"
 	vtypes "github.com/haqq-network/haqq/x/vesting/types"
 
 	"verif/harness/world"
@@ -56,7 +59,33 @@ func battery(w *world.World) []queryReq {
 		{"/haqq.coinomics.v1.Query/RewardCoefficient", nil},
 	}
 	_ = vestAddr
+	// by-key queries for every object the committed state holds: token pairs by denomination and by
+	// contract address (the two secondary indexes), liquid denominations, DAO balances of the holders
+	ctx := w.App.NewContext(true, w.Header)
+	for _, pr := range w.App.Erc20Keeper.GetTokenPairs(ctx) {
+		qs = append(qs, queryReq{"/evmos.erc20.v1.Query/TokenPair", m(&erc20types.QueryTokenPairRequest{Token: pr.Denom})},
+			queryReq{"/evmos.erc20.v1.Query/TokenPair", m(&erc20types.QueryTokenPairRequest{Token: pr.Erc20Address})})
+	}
+	for _, dn := range w.App.LiquidVestingKeeper.GetAllDenoms(ctx) {
+		qs = append(qs, queryReq{"/haqq.liquidvesting.v1.Query/Denom", m(&lvtypes.QueryDenomRequest{Denom: dn.BaseDenom})})
+	}
+	for _, b := range w.App.DaoKeeper.GetAccountsBalances(ctx) {
+		qs = append(qs, queryReq{"/haqq.ucdao.v1.Query/AllBalances", m(&ucdaotypes.QueryAllBalancesRequest{Address: b.Address})})
+	}
 	return qs
+}
+
+// BatteryOf returns the query list derived from w's committed state; RunQueries issues a given
+// list (so that two nodes are asked the same questions).
+func BatteryOf(w *world.World) []queryReq { return battery(w) }
+
+func RunQueries(w *world.World, qs []queryReq) []string {
+	var out []string
+	for _, q := range qs {
+		r := w.App.Query(abci.RequestQuery{Path: q.path, Data: q.data})
+		out = append(out, fmt.Sprintf("%s#%s code=%d value=%s", q.path, digest(q.data), r.Code, digest(r.Value)))
+	}
+	return out
 }
 
 // RunBattery issues the fixed query battery against the last committed state and returns one
